@@ -40,10 +40,16 @@ def run(ctx):
             continue   # reported above with its stack
         evs = [json.loads(l) for l in x["lines"]]
         core.report(ctx, {"check": "Mon_Tables", "invariant": x["invariant"], "ops": [e["o"]["op"] for e in evs if e.get("ev") == "Step"][:x["event"]]}, {"events": evs, "failing_event": x["event"]})
+    # ---- simultaneous requests for one session: answered, and no session mutex left locked
+    bursts = [[{"op": "Burst", "width": wd, "rounds": (1000 if quick else 8000), "queue": q}] for q in ("one", "none", "alternate") for wd in (16, 4)]
+    btrace, bsumm = core.run_harness(ctx, hb, "burst", bursts, "burst", shards=3, timeout=1500)
+    for inc in bsumm["incidents"]:
+        core.report(ctx, {"check": "replay-burst", "kind": inc["kind"], "where": inc["detail"] if inc["kind"] == "lock-held" else "", "site": inc["site"]}, inc)
+    bv = core.validate_traces(ctx, "Trace_Tables.tla", "Trace_Tables_strict.cfg", "Trace_Tables_mon.cfg", btrace, "burst", timeout=600, max_viol=3)
     core.write_evidence(ctx, "model_checking",
-        rule="cells = state class (fresh / outstanding tasks / open download / two-hop pivot, each with and without a Service block) x packet class (header length 0..19, 20, full; Demon / foreign magic; known / unknown / zero / pivot-child agent id; first command init / get-job / callback / both; 34 command ids incl. unknown x 31 sub ids x 16 body shapes incl. truncations, odd UTF-16 lengths, 2^32-1 length prefixes, nested valid and invalid registrations, random bytes; right / wrong key; relayed 0..2 hops); every (command, sub, shape) cell goes past the request-id gate of a tasked agent, the rest is sampled; each request runs under a watchdog with panic capture, mutex probes and a full state diff; non-trivial = cells; plus histories = for every reachable state of the agent's download and port-forward tables (ids known/unknown, empty file, forward target up/down, dialled or not) every well-formed callback, replayed as the shortest history reaching it on a fresh agent with the same probes after every step",
+        rule="cells = state class (fresh / outstanding tasks / open download / two-hop pivot, each with and without a Service block) x packet class (header length 0..19, 20, full; Demon / foreign magic; known / unknown / zero / pivot-child agent id; first command init / get-job / callback / both; 34 command ids incl. unknown x 31 sub ids x 16 body shapes incl. truncations, odd UTF-16 lengths, 2^32-1 length prefixes, nested valid and invalid registrations, random bytes; right / wrong key; relayed 0..2 hops); every (command, sub, shape) cell goes past the request-id gate of a tasked agent, the rest is sampled; each request runs under a watchdog with panic capture, mutex probes and a full state diff; non-trivial = cells; plus histories = for every reachable state of the agent's download and port-forward tables (ids known/unknown, empty file, forward target up/down, dialled or not) every well-formed callback, replayed as the shortest history reaching it on a fresh agent with the same probes after every step; plus bursts = rounds of 4 / 16 simultaneous check-ins for one session (queue empty / one task / alternating), every request answered and every session mutex free afterwards",
         samples=summ["samples"], evaluations=summ["behaviours"] + tsumm["behaviours"], distinct_nontrivial=len(cells) + len(hbehs), exhaustive=False,
-        extra={"counters": summ["counters"], "history_counters": tsumm["counters"], "histories": len(hbehs)},
+        extra={"counters": summ["counters"], "history_counters": tsumm["counters"], "histories": len(hbehs), "burst_counters": bsumm["counters"]},
         assumptions=["the packet class partition stands for 'all request bodies' (plus random bytes inside the 'random' shape); HTTP(S) listeners share parseAgentRequest with the External endpoint used here", "third-party (service) agent traffic with a registered magic value is not generated"])
 
 def _where(detail):
